@@ -168,6 +168,35 @@ func runC02(c *core.Ctx) {
 				return
 			}
 		}
+		// variables the command line did not mention hold their default (or their environment value)
+		for _, o := range p.Opts {
+			if len(b.Opts[o]) > 0 {
+				continue
+			}
+			var want []string
+			switch {
+			case o.Flag:
+				want = []string{fmt.Sprint(o.EnvSet)}
+			case o.Multi && o.EnvSet:
+				want = []string{drive.EnvValue(o)}
+			case o.Multi:
+				want = nil
+			case o.EnvSet:
+				want = []string{drive.EnvValue(o)}
+			default:
+				want = []string{""}
+			}
+			if got := o2.Values[0]["opt:"+o.Names[0]]; fmt.Sprintf("%q", got) != fmt.Sprintf("%q", want) && !(len(got) == 0 && len(want) == 0) {
+				c.Violation(fmt.Sprintf("option %s is not on the command line but its variable holds %q (expected %q)", o.Dashed()[0], got, want), nil, nil)
+				return
+			}
+		}
+		for _, a := range p.Args {
+			if len(b.Args[a]) == 0 && len(o2.Values[0]["arg:"+a.Name]) != 0 {
+				c.Violation(fmt.Sprintf("argument %s received no token but its variable holds %q", a.Name, o2.Values[0]["arg:"+a.Name]), nil, nil)
+				return
+			}
+		}
 		c.Inc("twin_equal")
 	}
 	if c.WantSample() && nvals >= 1 && nargs >= 2 {
